@@ -1,32 +1,54 @@
 #!/usr/bin/env python3
-"""seeded.py <PROP> <worktree> <name> [check props...]: confirm a seeded change (demo fails with / passes without, suite passes with),
-store it under /verif/seeded/<name>/ and run the quick check(s) against it."""
+"""seeded.py <PROP> <mutation dir> <name> [check props...]
+Confirm a seeded change written by a sub-agent (demo fails with / passes without), store it under
+/verif/seeded/<name>/ and run the quick check(s) against it.
+<mutation dir> = <worktree>/_mutation[/a|/b] holding patch.diff, meta.json (demo_cmd, optional demo_files) and the demo.
+/repo must be clean (committed); it is left clean."""
 import sys, os, json, subprocess, shutil, re, glob
-prop, wt, name = sys.argv[1], sys.argv[2], sys.argv[3]
+prop, mdir, name = sys.argv[1], sys.argv[2].rstrip("/"), sys.argv[3]
 checks = sys.argv[4:] or [prop]
+wt = mdir[:mdir.index("/_mutation")]
 env = dict(os.environ, GOFLAGS="-mod=mod", GOPROXY="off", GOSUMDB="off")
-mdir = os.path.join(wt, "_mutation")
 meta = json.load(open(os.path.join(mdir, "meta.json")))
 patch = os.path.join(mdir, "patch.diff")
-def sh(cmd, cwd=wt, timeout=1800):
+def sh(cmd, cwd=wt, timeout=3000):
     p = subprocess.run(cmd, shell=True, cwd=cwd, env=env, capture_output=True, text=True, timeout=timeout)
     return p.returncode, (p.stdout + p.stderr)
+rc, o = sh("git -C /repo status --porcelain")
+assert o.strip() == "", "/repo is not clean:\n" + o
+rc, o = sh("git status --porcelain --untracked-files=no")
+assert o.strip() == "", "worktree has source changes:\n" + o
+placed = []
+for fn, rel in (meta.get("demo_files") or {}).items():
+    dst = os.path.join(wt, rel)
+    if os.path.isdir(dst) or rel.endswith("/"):
+        dst = os.path.join(dst, fn)
+    os.makedirs(os.path.dirname(dst), exist_ok=True)
+    shutil.copy(os.path.join(mdir, fn), dst)
+    placed.append(dst)
 demo = meta["demo_cmd"]
 demo = re.sub(r"^cd \S+ && ", "", demo)
 demo = re.sub(r"export [^&]*&& ", "", demo)
-rc_with, out_with = sh(demo)
-rc, _ = sh("git apply -R %s" % patch)
-assert rc == 0, "cannot reverse patch"
-rc_without, out_without = sh(demo)
-sh("git apply %s" % patch)
+try:
+    rc, o = sh("git apply %s" % patch)
+    assert rc == 0, "patch does not apply: " + o
+    rc_with, out_with = sh(demo)
+    rc, _ = sh("git apply -R %s" % patch)
+    assert rc == 0, "cannot reverse patch"
+    rc_without, out_without = sh(demo)
+finally:
+    sh("git checkout -- .")
+    for f in placed:
+        os.remove(f)
 print("demo with change: rc=%d ; without: rc=%d" % (rc_with, rc_without))
-# suite with the change (demo test moved aside)
+if rc_with == 0 or rc_without != 0:
+    print("NOT CONFIRMED\n--- with:\n", out_with[-1500:], "\n--- without:\n", out_without[-1500:])
 res = {"demo_fails_with": rc_with != 0, "demo_passes_without": rc_without == 0}
 dst = os.path.join("/verif/seeded", name)
 os.makedirs(dst, exist_ok=True)
 for f in glob.glob(os.path.join(mdir, "*")):
-    shutil.copy(f, dst)
-# run the checks against /repo with the patch applied
+    if os.path.isfile(f):
+        shutil.copy(f, dst)
 rc, o = sh("git -C /repo apply %s" % patch, cwd="/verif")
 assert rc == 0, o
 det = {}
@@ -36,6 +58,8 @@ try:
         sigs = re.findall(r"^DETAIL (\S+):", o, re.M)
         det[c] = {"exit": rc, "violations": sorted(set(sigs))[:12]}
         print(c, "exit", rc, sorted(set(sigs))[:6])
+        if rc == 2:
+            print(o[-2000:])
 finally:
     sh("git -C /repo checkout -- .", cwd="/verif")
 meta.update({"confirmed": res, "detected_by": det, "worktree_base": subprocess.run("git -C /repo log --format=%h -1", shell=True, capture_output=True, text=True).stdout.strip()})
